@@ -61,7 +61,7 @@ class KeyGen:
 
 
 def gen_script(rng, tier, n_keys=None, storages=1, scans=True, dumps=True, inline_frac=0.1,
-               with_storage_ops=False, max_ops=None, phantoms=False):
+               with_storage_ops=False, max_ops=None, phantoms=False, putinfo=False):
     """one program: create storage(s), build, probe, delete, re-insert; returns list of op lines"""
     kg = KeyGen(rng, long_tail=(tier == "thorough"))
     if n_keys is None:
@@ -92,6 +92,11 @@ def gen_script(rng, tier, n_keys=None, storages=1, scans=True, dumps=True, inlin
         return bytes(rng.randrange(256) for _ in range(n))
 
     def put(nm, k, unique=False):
+        if putinfo and not inline_storage and not unique and rng.random() < 0.5:
+            v = val()
+            ops.append("putinfo %s %s %s" % (hx(nm), hx(k), hx(v)))
+            live[nm][k] = v
+            return
         if inline_storage:
             v = bytes([rng.randrange(256) for _ in range(3)] + [0] * 5)   # small word: bits 62/63 clear
             if v == b"\0" * 8:
@@ -325,6 +330,7 @@ def abstract(line):
     if line is None:
         return None
     s = re.sub(r" mod=\S+ cre=\S+ cvp=\S+", "", line)
+    s = re.sub(r" existed=.*$", "", s)
     s = re.sub(r" nv=\[.*\]$", "", s)
     s = re.sub(r" nv=\S+$", "", s)
     return s
@@ -385,7 +391,7 @@ def run_script(tag, ops, name="s"):
     return r
 
 
-NOSPEC = ("init", "fin", "enter", "leave", "dump", "mem", "phantom", "getmiss")
+NOSPEC = ("init", "fin", "enter", "leave", "dump", "phantom", "getmiss")
 
 
 def compare(r, categories):
@@ -403,6 +409,8 @@ def compare(r, categories):
         if kind == "mem":
             if "mem" in categories and a != b:
                 res["mem"].append(i)
+            if "mem" in categories and i < len(r.spec) and r.spec[i] is not None and a != r.spec[i]:
+                res["oracle"].append(i)
             continue
         if kind == "fin":
             continue
